@@ -218,6 +218,13 @@ def check_console(t, viol, obs):
     nG = len([e for e in t.log if e["ph"] == "g"])
     if str(nG) != d["nG"]:
         viol.append({"mech": "console-report-wrong", "field": "global trial count", "printed": d["nG"], "actual_evaluations": nG})
+    # "actual trial counts": the local count is the number of evaluations of the latest refinement (scipy's nfev; the final
+    # re-evaluation of the returned point may or may not be counted)
+    lc = [n for n in getattr(t, "local_calls", []) if n > 0]
+    if lc:
+        obs["console_local_counts_checked"] = obs.get("console_local_counts_checked", 0) + 1
+        if d["nL"] not in (str(lc[-1]), str(lc[-1] - 1)):
+            viol.append({"mech": "console-report-wrong", "field": "local trial count", "printed": d["nL"], "evaluations_of_the_latest_refinement": lc[-1]})
     for k in exp:
         pr = " ".join(d[k].split())
         ex = " ".join(exp[k].split())
@@ -428,7 +435,7 @@ def run_case(c):
 def finalize(obs, tier, stats):
     for k in ("before_checked", "iter_callbacks_checked", "stop_callbacks_checked", "console_reports_checked", "painter_runs", "painter_probe_calls",
               "figures_written", "refine_runs", "multi_listener_runs", "hostile_grid_boxes", "runs_with_coincident_projected_trials",
-              "listener_class_shape_0", "listener_class_shape_1", "listener_class_shape_2", "listener_class_shape_3", "console_subclass_runs", "attached_directly", "attached_through_proxy", "ambient_solvers_compared", "ambient_with_user_listeners"):
+              "listener_class_shape_0", "listener_class_shape_1", "listener_class_shape_2", "listener_class_shape_3", "console_subclass_runs", "attached_directly", "attached_through_proxy", "ambient_solvers_compared", "ambient_with_user_listeners", "console_local_counts_checked"):
         if not obs.get(k):
             return "%s never observed" % k, {}
     if len(obs.get("painter_kinds", [])) < 19:
